@@ -1,73 +1,650 @@
+//! C07 correspondence harness: snapshots of the real tensor_store (files, bytes, quantising format).
+//! Case kinds (Gallina terms for NV.C07.Run):
+//!   hdr   : (compressed, count, first header bytes of a written file)          -> check_hdr
+//!   rt    : (dim, fmt, ops, dump before, dump after) at SlabRouter level        -> check_rt_full
+//!   q     : (delta, ops, dump before, dump after) through save/load_snapshot_compressed -> check_q
+//!   crash : (tmp_ext, had_old, n, outcomes per truncation, outcome after)       -> check_crash
+//! Implementation-only streams (no model evaluation): slabs (every specialised slab compared after a
+//! round trip), big (thousands of entries), tt (long embeddings against the documented tolerance).
 use nvh_common::*;
+use std::collections::BTreeMap;
+use std::path::{Path, PathBuf};
+use std::sync::{Arc, Mutex};
 use tensor_store::*;
+use std::result::Result;
 
-fn relerr(a: &[f32], b: &[f32]) -> f64 {
-    let num: f64 = a.iter().zip(b).map(|(x, y)| ((*x - *y) as f64).powi(2)).sum::<f64>().sqrt();
-    let den: f64 = a.iter().map(|x| (*x as f64).powi(2)).sum::<f64>().sqrt();
-    num / den
+// ------------------------------------------------------------------------------------ values
+fn bstr(s: &str) -> String {
+    bytes(s.as_bytes())
 }
-fn main() {
-    let args = Args::parse();
-    let mut r = Rng::new(args.seed);
-    let dir = args.out.clone();
-    // probe 1: TT embedding
-    let s = TensorStore::new();
-    let v: Vec<f32> = (0..384).map(|_| (r.below(2000) as f32 - 1000.0) / 1000.0).collect();
+fn scalar_coq(s: &ScalarValue) -> String {
+    match s {
+        ScalarValue::Null => "SNull".into(),
+        ScalarValue::Bool(x) => format!("(SBool {})", b(*x)),
+        ScalarValue::Int(i) => format!("(SInt {})", z(*i as i128)),
+        ScalarValue::Float(f) => format!("(SFloat {})", f.to_bits()),
+        ScalarValue::String(s) => format!("(SStr {})", bstr(s)),
+        ScalarValue::Bytes(v) => format!("(SBytes {})", bytes(v)),
+    }
+}
+fn vbits(v: &[f32]) -> String {
+    list(v.iter().map(|x| format!("{}", x.to_bits())))
+}
+fn tval_coq(v: &TensorValue) -> String {
+    match v {
+        TensorValue::Scalar(s) => format!("(TScalar {})", scalar_coq(s)),
+        TensorValue::Vector(v) => format!("(TVec {})", vbits(v)),
+        TensorValue::Sparse(sv) => format!(
+            "(TSparse {} {} {})",
+            sv.dimension(),
+            list(sv.positions().iter().map(|p| format!("{p}"))),
+            vbits(sv.values())
+        ),
+        TensorValue::Pointer(p) => format!("(TPtr {})", bstr(p)),
+        TensorValue::Pointers(ps) => format!("(TPtrs {})", list(ps.iter().map(|p| bstr(p)))),
+    }
+}
+fn sorted_fields(t: &TensorData) -> Vec<(String, TensorValue)> {
+    let mut v: Vec<(String, TensorValue)> = t.iter().map(|(k, v)| (k.clone(), v.clone())).collect();
+    v.sort_by(|a, b| a.0.as_bytes().cmp(b.0.as_bytes()));
+    v
+}
+fn tdata_coq(t: &TensorData) -> String {
+    list(sorted_fields(t).iter().map(|(k, v)| format!("({}, {})", bstr(k), tval_coq(v))))
+}
+type Dump = Vec<(String, Option<TensorData>)>;
+fn dump_coq(d: &Dump) -> String {
+    list(d.iter().map(|(k, t)| format!("({}, {})", bstr(k), opt(t.as_ref().map(tdata_coq)))))
+}
+fn dump_router(r: &SlabRouter) -> Dump {
+    let mut keys = r.scan("");
+    keys.sort_by(|a, b| a.as_bytes().cmp(b.as_bytes()));
+    keys.into_iter().map(|k| { let g = r.get(&k).ok(); (k, g) }).collect()
+}
+/// bit-exact equality of two values (f32/f64 compared by bit pattern)
+fn tval_bits_eq(a: &TensorValue, b: &TensorValue) -> bool {
+    tval_coq(a) == tval_coq(b)
+}
+fn tdata_bits_eq(a: &TensorData, b: &TensorData) -> bool {
+    tdata_coq(a) == tdata_coq(b)
+}
+fn dump_bits_eq(a: &Dump, b: &Dump) -> bool {
+    dump_coq(a) == dump_coq(b)
+}
+
+const F32_SPECIAL: [u32; 16] = [
+    0, 0x8000_0000, 0x3F80_0000, 0xBF80_0000, 0x7F80_0000, 0xFF80_0000, 0x7FC0_0000, 0x0000_0001, 0x33D6_BF95, // 1e-7
+    0x358637BD, // 1e-6
+    0x358637BE, 0x7149_F2CA, // 1e30
+    0x4B00_0000, // 2^23
+    0x5F80_0000, // 2^64
+    0x4020_0000, // 2.5
+    0x40A0_0000, // 5.0
+];
+fn gen_f32(r: &mut Rng) -> f32 {
+    match r.below(10) {
+        0..=3 => f32::from_bits(*r.pick(&F32_SPECIAL)),
+        4..=6 => r.below(12) as f32,
+        7 => (r.below(2000) as f32 - 1000.0) / 8.0,
+        8 => f32::from_bits(r.next() as u32),
+        _ => (r.below(1 << 26) as f32) * 64.0,
+    }
+}
+fn gen_vec(r: &mut Rng, len: usize) -> Vec<f32> {
+    match r.below(6) {
+        0 => { let mut x = r.below(5) as f32; (0..len).map(|_| { x += r.below(4) as f32; x }).collect() } // sorted ids
+        1 => (0..len).map(|_| if r.chance(2, 3) { 0.0 } else { gen_f32(r) }).collect(),          // mostly zero
+        2 => (0..len).map(|_| if r.chance(1, 2) { f32::from_bits(*r.pick(&[0u32, 0x8000_0000, 0x33D6_BF95, 1])) } else { gen_f32(r) }).collect(),
+        _ => (0..len).map(|_| gen_f32(r)).collect(),
+    }
+}
+fn gen_string(r: &mut Rng) -> String {
+    match r.below(8) {
+        0 => String::new(),
+        1 => "naïve ☃".to_string(),
+        2 => "bytes:3".to_string(),
+        3 => "x".repeat(r.range(20, 60) as usize),
+        _ => format!("s{}", r.below(50)),
+    }
+}
+fn gen_scalar(r: &mut Rng, dist: &mut Dist) -> ScalarValue {
+    match r.below(7) {
+        0 => { dist.hit("val.null"); ScalarValue::Null }
+        1 => { dist.hit("val.bool"); ScalarValue::Bool(r.chance(1, 2)) }
+        2 => { dist.hit("val.int"); ScalarValue::Int(*r.pick(&[i64::MIN, i64::MAX, 0, -1, 1, 42, -7_000_000_000])) }
+        3 => { dist.hit("val.float"); ScalarValue::Float(f64::from_bits(*r.pick(&[0u64, 0x8000_0000_0000_0000, 0x7FF0_0000_0000_0000, 0xFFF0_0000_0000_0000, 0x7FF8_0000_0000_0000, 0x7FF8_0000_0000_0001, 1, 0x3FF0_0000_0000_0000, 0x400921FB54442D18]))) }
+        4 => { dist.hit("val.string"); ScalarValue::String(gen_string(r)) }
+        _ => { dist.hit("val.bytes"); let n = *r.pick(&[0usize, 1, 3, 12]); ScalarValue::Bytes((0..n).map(|_| r.below(256) as u8).collect()) }
+    }
+}
+fn gen_value(r: &mut Rng, dim: usize, dist: &mut Dist) -> TensorValue {
+    match r.below(10) {
+        0..=3 => TensorValue::Scalar(gen_scalar(r, dist)),
+        4..=6 => { dist.hit("val.vector"); let len = if r.chance(1, 2) { dim } else { *r.pick(&[0usize, 1, 2, 3, 5, 8]) }; TensorValue::Vector(gen_vec(r, len)) }
+        7 => {
+            dist.hit("val.sparse");
+            let d = r.range(1, 9) as usize;
+            let mut pos: Vec<u32> = (0..d as u32).filter(|_| r.chance(1, 3)).collect();
+            r.shuffle(&mut pos);
+            let vals: Vec<f32> = pos.iter().map(|_| gen_f32(r)).collect();
+            TensorValue::Sparse(SparseVector::from_parts(d, pos, vals))
+        }
+        8 => { dist.hit("val.pointer"); TensorValue::Pointer(gen_string(r)) }
+        _ => { dist.hit("val.pointers"); let n = r.below(4) as usize; TensorValue::Pointers((0..n).map(|_| gen_string(r)).collect()) }
+    }
+}
+const FIELD_NAMES: [&str; 10] = ["_embedding", "vector", "ids", "x_ids", "a", "b", "", "name", "é", "_type"];
+const KEY_PREFIX: [&str; 9] = ["emb:", "emb:", "node:", "edge:", "table:", "_cache:", "", "_blob:meta:", "user:"];
+fn gen_key(r: &mut Rng, dist: &mut Dist) -> String {
+    let p = *r.pick(&KEY_PREFIX);
+    dist.hit(&format!("key.{}", if p.is_empty() { "plain" } else { p.trim_end_matches(':') }));
+    if p.is_empty() && r.chance(1, 10) { return String::new(); }
+    if r.chance(1, 12) { return format!("{p}ü{}", r.below(3)); }
+    format!("{p}{}", r.below(4))
+}
+fn gen_tdata(r: &mut Rng, dim: usize, emb_bias: bool, dist: &mut Dist) -> TensorData {
     let mut t = TensorData::new();
-    t.set("_embedding", TensorValue::Vector(v.clone()));
-    t.set("a", TensorValue::Scalar(ScalarValue::Int(1)));
-    s.put("emb:x", t.clone()).unwrap();
-    s.put("plain", t.clone()).unwrap();
-    let p = dir.join("s.bin");
-    s.save_snapshot(&p).unwrap();
-    let l = TensorStore::load_snapshot(&p).unwrap();
-    for k in ["emb:x", "plain"] {
-        let g = l.get(k).unwrap();
-        if let Some(TensorValue::Vector(w)) = g.get("_embedding") {
-            println!("{k}: relerr {:.4} first {:?} vs {:?}", relerr(&v, w), &v[..3], &w[..3]);
+    let n = r.below(4) as usize;
+    for _ in 0..n {
+        let f = *r.pick(&FIELD_NAMES);
+        t.set(f, gen_value(r, dim, dist));
+    }
+    if emb_bias && r.chance(3, 4) {
+        dist.hit("val.embedding_of_slab_dim");
+        t.set("_embedding", TensorValue::Vector(gen_vec(r, dim)));
+    }
+    t
+}
+#[derive(Clone)]
+enum Op { Put(String, TensorData), Delete(String) }
+impl Op {
+    fn coq(&self) -> String {
+        match self {
+            Op::Put(k, t) => format!("OPut {} {}", bstr(k), tdata_coq(t)),
+            Op::Delete(k) => format!("ODelete {}", bstr(k)),
         }
     }
-    let b = s.snapshot_bytes().unwrap();
-    let s2 = TensorStore::new();
-    s2.restore_from_bytes(&b).unwrap();
-    if let Some(TensorValue::Vector(w)) = s2.get("emb:x").unwrap().get("_embedding") {
-        println!("bytes emb:x relerr {:.4}", relerr(&v, w));
+    fn human(&self) -> String {
+        match self {
+            Op::Put(k, t) => format!("put({k:?}, {:?})", sorted_fields(t)),
+            Op::Delete(k) => format!("delete({k:?})"),
+        }
     }
-    // smooth vector
-    let v2: Vec<f32> = (0..384).map(|i| (i as f32 * 0.01).sin()).collect();
-    let mut t2 = TensorData::new();
-    t2.set("_embedding", TensorValue::Vector(v2.clone()));
-    s.put("emb:y", t2).unwrap();
-    s.save_snapshot(&p).unwrap();
-    let l = TensorStore::load_snapshot(&p).unwrap();
-    if let Some(TensorValue::Vector(w)) = l.get("emb:y").unwrap().get("_embedding") {
-        println!("emb:y smooth relerr {:.6}", relerr(&v2, w));
+}
+fn gen_ops(r: &mut Rng, dim: usize, max: u64, dist: &mut Dist) -> Vec<Op> {
+    let n = r.range(0, max) as usize;
+    let mut ops = Vec::new();
+    let mut keys: Vec<String> = Vec::new();
+    for _ in 0..n {
+        if !keys.is_empty() && r.chance(1, 6) {
+            let k = r.pick(&keys).clone();
+            dist.hit("op.delete");
+            ops.push(Op::Delete(k));
+        } else {
+            let k = if !keys.is_empty() && r.chance(1, 4) { r.pick(&keys).clone() } else { gen_key(r, dist) };
+            let emb = k.starts_with("emb:");
+            keys.push(k.clone());
+            dist.hit("op.put");
+            ops.push(Op::Put(k, gen_tdata(r, dim, emb, dist)));
+        }
     }
-    // probe 2: small-dim router, tiny values
-    let cfg = SlabRouterConfig { embedding_dim: 4, ..Default::default() };
-    let rt = SlabRouter::with_config(&cfg);
-    let mut t3 = TensorData::new();
-    t3.set("_embedding", TensorValue::Vector(vec![1.0, 1e-7, -0.0, f32::NAN]));
-    rt.put("emb:z", t3).unwrap();
-    let rb = rt.to_bytes().unwrap();
-    let r2 = SlabRouter::from_bytes(&rb).unwrap();
-    println!("small before {:?}", rt.get("emb:z").unwrap().get("_embedding"));
-    println!("small after  {:?}", r2.get("emb:z").unwrap().get("_embedding"));
-    // probe 3: compressed
-    let s3 = TensorStore::new();
-    let mut t4 = TensorData::new();
-    t4.set("b", TensorValue::Scalar(ScalarValue::Bytes(vec![1, 2, 3])));
-    t4.set("ids", TensorValue::Vector(vec![5.0, 3.0, 2.5, -1.0]));
-    t4.set("w", TensorValue::Vector(vec![1.0, 1e30]));
-    t4.set("sp", TensorValue::Sparse(SparseVector::from_parts(5, vec![1, 3], vec![2.0, -1.0])));
-    s3.put("k", t4).unwrap();
-    let pc = dir.join("c.bin");
-    let cc = tensor_compress::CompressionConfig { tensor_mode: None, delta_encoding: true, rle_encoding: true };
-    s3.save_snapshot_compressed(&pc, cc).unwrap();
-    let l3 = TensorStore::load_snapshot_compressed(&pc).unwrap();
-    println!("compressed: {:?}", l3.get("k").unwrap());
-    // probe 4: tmp path
-    let pt = dir.join("snap.tmp");
-    println!("save to .tmp: {:?}", s3.save_snapshot(&pt).map_err(|e| e.to_string()));
-    println!("exists {:?}", pt.exists());
+    ops
+}
+fn apply_router(r: &SlabRouter, ops: &[Op]) {
+    for o in ops {
+        match o {
+            Op::Put(k, t) => { let _ = r.put(k, t.clone()); }
+            Op::Delete(k) => { let _ = r.delete(k); }
+        }
+    }
+}
+
+// ------------------------------------------------------------------------------------ raw round trips
+fn router_roundtrip(r: &SlabRouter, fmt: u64, dir: &Path, tag: &str) -> Result<(SlabRouter, Option<Vec<u8>>), String> {
+    match fmt {
+        0 | 1 => {
+            let p = dir.join(format!("{tag}.bin"));
+            let _ = std::fs::remove_file(&p);
+            if fmt == 0 { r.save_to_file(&p).map_err(|e| e.to_string())?; } else { snapshot::save_v3_uncompressed(r, &p).map_err(|e| e.to_string())?; }
+            let raw = std::fs::read(&p).map_err(|e| e.to_string())?;
+            let l = SlabRouter::load_from_file(&p).map_err(|e| e.to_string())?;
+            Ok((l, Some(raw)))
+        }
+        _ => {
+            let bs = r.to_bytes().map_err(|e| e.to_string())?;
+            Ok((SlabRouter::from_bytes(&bs).map_err(|e| e.to_string())?, None))
+        }
+    }
+}
+
+// every specialised slab, canonicalised to a string, for implementation-only comparison
+fn slabs_view(r: &SlabRouter, nodes: u64, chunks: &[ChunkHash]) -> BTreeMap<String, String> {
+    let mut m = BTreeMap::new();
+    let mut names = r.relations.table_names();
+    names.sort();
+    for t in &names {
+        let sch = r.relations.get_schema(t);
+        m.insert(format!("rel.schema.{t}"), format!("{:?}", sch.map(|s| (s.columns.iter().map(|c| (c.name.clone(), format!("{:?}", c.col_type), c.nullable)).collect::<Vec<_>>(), s.primary_key))));
+        let mut rows = r.relations.scan_all(t).unwrap_or_default();
+        rows.sort_by_key(|(id, _)| *id);
+        m.insert(format!("rel.rows.{t}"), format!("{:?}", rows.iter().map(|(id, row)| (id.0, row.iter().map(colval).collect::<Vec<_>>())).collect::<Vec<_>>()));
+    }
+    m.insert("rel.tables".into(), format!("{names:?}"));
+    let mut idx = r.index.scan_prefix("");
+    idx.sort();
+    m.insert("index".into(), format!("{:?}", idx.iter().map(|(k, id)| (k.clone(), id.as_u64())).collect::<Vec<_>>()));
+    let mut es = r.embeddings.entries();
+    es.sort_by_key(|(id, _)| *id);
+    m.insert("embeddings.ids".into(), format!("{:?}", es.iter().map(|(id, _)| id.as_u64()).collect::<Vec<_>>()));
+    for n in 0..nodes {
+        let mut o: Vec<(u64, u64)> = r.graph.outgoing(EntityId::new(n)).iter().map(|(t, e)| (t.as_u64(), e.0)).collect();
+        o.sort();
+        let mut i: Vec<(u64, u64)> = r.graph.incoming(EntityId::new(n)).iter().map(|(t, e)| (t.as_u64(), e.0)).collect();
+        i.sort();
+        m.insert(format!("graph.out.{n}"), format!("{o:?}"));
+        m.insert(format!("graph.in.{n}"), format!("{i:?}"));
+        for (_, e) in &o {
+            m.insert(format!("graph.data.{e}"), format!("{:?}", r.graph.get_edge_data(EdgeId::new(*e)).map(|t| tdata_coq(&t))));
+        }
+    }
+    m.insert("graph.edge_count".into(), format!("{}", r.graph.edge_count()));
+    for c in chunks {
+        m.insert(format!("blob.{}", c.0), format!("{:?}", r.blobs.get(c)));
+    }
+    m.insert("blob.count".into(), format!("{}", r.blobs.chunk_count()));
+    m
+}
+fn colval(c: &ColumnValue) -> String {
+    match c {
+        ColumnValue::Float(f) => format!("F{}", f.to_bits()),
+        other => format!("{other:?}"),
+    }
+}
+fn gen_colval(r: &mut Rng, t: &ColumnType, nullable: bool) -> ColumnValue {
+    if nullable && r.chance(1, 5) { return ColumnValue::Null; }
+    match t {
+        ColumnType::Int => ColumnValue::Int(*r.pick(&[i64::MIN, i64::MAX, 0, -1, 7])),
+        ColumnType::Float => ColumnValue::Float(f64::from_bits(*r.pick(&[0u64, 0x8000_0000_0000_0000, 0x7FF8_0000_0000_0000, 0x7FF0_0000_0000_0000, 0x400921FB54442D18]))),
+        ColumnType::String | ColumnType::Json => ColumnValue::String(gen_string(r)),
+        ColumnType::Bool => ColumnValue::Bool(r.chance(1, 2)),
+        ColumnType::Bytes => ColumnValue::Bytes((0..r.below(5)).map(|_| r.below(256) as u8).collect()),
+        #[allow(unreachable_patterns)]
+        _ => ColumnValue::Null,
+    }
+}
+/// fills relations / graph / blobs of a router directly; returns (node count, chunk hashes)
+fn fill_slabs(r: &mut Rng, rt: &SlabRouter, dist: &mut Dist) -> (u64, Vec<ChunkHash>) {
+    let ntab = r.below(3);
+    for ti in 0..ntab {
+        let types = [ColumnType::Int, ColumnType::Float, ColumnType::String, ColumnType::Bool, ColumnType::Bytes];
+        let ncol = r.range(1, 4) as usize;
+        let cols: Vec<ColumnDef> = (0..ncol).map(|i| ColumnDef::new(&format!("c{i}"), r.pick(&types).clone(), r.chance(1, 2))).collect();
+        let schema = if r.chance(1, 3) { TableSchema::new(cols.clone()).with_primary_key("c0") } else { TableSchema::new(cols.clone()) };
+        let name = format!("t{ti}");
+        if rt.relations.create_table(&name, schema).is_err() { continue; }
+        dist.hit("slab.table");
+        let nrows = r.below(6);
+        let mut ids = vec![];
+        for _ in 0..nrows {
+            let row: Row = cols.iter().map(|c| gen_colval(r, &c.col_type, c.nullable)).collect();
+            if let Ok(id) = rt.relations.insert(&name, row) { ids.push(id); dist.hit("slab.row"); }
+        }
+        if !ids.is_empty() && r.chance(1, 3) { let _ = rt.relations.delete(&name, *r.pick(&ids)); dist.hit("slab.row_delete"); }
+        if r.chance(1, 3) { let _ = rt.relations.create_index(&name, "c0"); dist.hit("slab.index"); }
+    }
+    let nodes = r.below(5);
+    let mut edges = vec![];
+    if nodes > 0 {
+        for _ in 0..r.below(7) {
+            let e = rt.graph.add_edge(EntityId::new(r.below(nodes)), EntityId::new(r.below(nodes)), *r.pick(&["knows", "likes"]), r.chance(1, 2));
+            dist.hit("slab.edge");
+            if r.chance(1, 2) { let mut t = TensorData::new(); t.set("w", TensorValue::Scalar(ScalarValue::Int(r.below(9) as i64))); rt.graph.set_edge_data(e, t); }
+            edges.push(e);
+        }
+        // (merge only before deletions: GraphTensor::merge forgets the deleted set without cleaning the
+        //  incoming index, so a deleted edge reappears in incoming() of the LIVE graph -- not a snapshot matter)
+        if r.chance(1, 2) { rt.graph.merge(); }
+        if !edges.is_empty() && r.chance(1, 3) { rt.graph.delete_edge(*r.pick(&edges)); dist.hit("slab.edge_delete"); }
+    }
+    let mut chunks = vec![];
+    for _ in 0..r.below(4) {
+        let data: Vec<u8> = (0..r.below(40)).map(|_| r.below(256) as u8).collect();
+        chunks.push(rt.blobs.append(&data));
+        dist.hit("slab.chunk");
+    }
+    (nodes, chunks)
+}
+
+// ------------------------------------------------------------------------------------ crash machinery
+#[derive(Clone, Copy, PartialEq)]
+enum Fmt { FileZstd, FileRaw, Quant }
+fn save_store(s: &TensorStore, p: &Path, fmt: Fmt) -> Result<(), String> {
+    match fmt {
+        Fmt::FileZstd => s.save_snapshot(p).map_err(|e| e.to_string()),
+        Fmt::FileRaw => snapshot::save_v3_uncompressed(s.router(), p).map_err(|e| e.to_string()),
+        Fmt::Quant => s.save_snapshot_compressed(p, tensor_compress::CompressionConfig { tensor_mode: None, delta_encoding: false, rle_encoding: false }).map_err(|e| e.to_string()),
+    }
+}
+fn load_store(p: &Path, fmt: Fmt) -> Result<TensorStore, String> {
+    match fmt {
+        Fmt::Quant => TensorStore::load_snapshot_compressed(p).map_err(|e| e.to_string()),
+        _ => TensorStore::load_snapshot(p).map_err(|e| e.to_string()),
+    }
+}
+/// outcome code of loading `p`: 0 error, 1 old, 2 new, 3 other, 4 panic
+fn outcome(p: &Path, fmt: Fmt, old: Option<&Dump>, new: &Dump) -> u64 {
+    let pp = p.to_path_buf();
+    match guarded(move || load_store(&pp, fmt).map(|s| dump_router(s.router()))) {
+        Err(_) => 4,
+        Ok(Err(_)) => if old.is_none() && !p.exists() { 1 } else { 0 },
+        Ok(Ok(d)) => {
+            if dump_bits_eq(&d, new) { 2 } else if old.map_or(false, |o| dump_bits_eq(&d, o)) { 1 } else { 3 }
+        }
+    }
+}
+
+struct Captured { files: Vec<(PathBuf, Vec<u8>)> }
+
+fn main() {
+    let args = Args::parse();
+    quiet_panics();
+    let mut rng = Rng::new(args.seed);
+    let mut dist = Dist::default();
+    let mut hits = Hits::default();
+    let scratch = args.out.join("scratch");
+    std::fs::create_dir_all(&scratch).unwrap();
+
+    let mut hdr = CaseWriter::new(&args.out, "hdr");
+    let mut rt = CaseWriter::new(&args.out, "rt");
+    let mut q = CaseWriter::new(&args.out, "q");
+    let mut crash = CaseWriter::new(&args.out, "crash");
+    let mut slabs = CaseWriter::new(&args.out, "slabs");
+    let mut big = CaseWriter::new(&args.out, "big");
+    let mut tt = CaseWriter::new(&args.out, "tt");
+
+    // ---------------------------------------------------------------- rt (+hdr): corpus first
+    let mut rt_inputs: Vec<(usize, u64, Vec<Op>)> = vec![];
+    {
+        // F-C07-tiny: slab dimension 4, vector with entries the sparse rule rewrites
+        let mut t = TensorData::new();
+        t.set("_embedding", TensorValue::Vector(vec![1.0, 1e-7, -0.0, f32::NAN]));
+        rt_inputs.push((4, 2, vec![Op::Put("emb:z".into(), t.clone())]));
+        rt_inputs.push((4, 0, vec![Op::Put("emb:z".into(), t)]));
+        // stale slab vector kept when a later put has no _embedding; delete + re-create (tombstone)
+        let mut a = TensorData::new();
+        a.set("_embedding", TensorValue::Vector(vec![1.0, 2.0]));
+        let mut bb = TensorData::new();
+        bb.set("a", TensorValue::Scalar(ScalarValue::Int(1)));
+        rt_inputs.push((2, 1, vec![Op::Put("emb:1".into(), a.clone()), Op::Put("emb:1".into(), bb.clone()), Op::Delete("emb:1".into()), Op::Put("emb:1".into(), a), Op::Put("emb:2".into(), bb)]));
+    }
+    let nrt = args.budget(350, 12000);
+    for _ in 0..nrt {
+        let dim = *rng.pick(&[2usize, 3, 4, 8]);
+        let fmt = rng.below(3);
+        let ops = gen_ops(&mut rng, dim, 7, &mut dist);
+        rt_inputs.push((dim, fmt, ops));
+    }
+    for (i, (dim, fmt, ops)) in rt_inputs.iter().enumerate() {
+        let cfg = SlabRouterConfig { embedding_dim: *dim, ..Default::default() };
+        let r = SlabRouter::with_config(&cfg);
+        apply_router(&r, ops);
+        let before = dump_router(&r);
+        dist.hit(&format!("rt.fmt.{fmt}"));
+        let count = (r.len() + r.index.len()) as u64;
+        match router_roundtrip(&r, *fmt, &scratch, "rt") {
+            Ok((l, raw)) => {
+                let after = dump_router(&l);
+                let term = format!("({}, {}, {}, {}, {})", dim, fmt, list(ops.iter().map(|o| o.coq())), dump_coq(&before), dump_coq(&after));
+                let human = format!("rt#{i} dim={dim} fmt={fmt} ops=[{}]", ops.iter().map(|o| o.human()).collect::<Vec<_>>().join("; "));
+                rt.push(&term, &human, before.len() >= 1);
+                if let Some(raw) = raw {
+                    let n20 = raw.len().min(20);
+                    hdr.push(&format!("({}, {}, {})", b(*fmt == 0), count, bytes(&raw[..n20])), &format!("hdr of rt#{i}: compressed={} count={count}", *fmt == 0), count > 0);
+                }
+            }
+            Err(e) => hits.push("roundtrip-error", &format!("round trip failed: {e}"), json!({"kind": "rt", "index": i, "ops": ops.iter().map(|o| o.human()).collect::<Vec<_>>() })),
+        }
+    }
+
+    // ---------------------------------------------------------------- slabs (implementation only)
+    let nsl = args.budget(150, 4000);
+    for i in 0..nsl {
+        let dim = *rng.pick(&[2usize, 4, 8]);
+        let cfg = SlabRouterConfig { embedding_dim: dim, ..Default::default() };
+        let r = SlabRouter::with_config(&cfg);
+        let ops = gen_ops(&mut rng, dim, 5, &mut dist);
+        apply_router(&r, &ops);
+        let (nodes, chunks) = fill_slabs(&mut rng, &r, &mut dist);
+        let fmt = rng.below(3);
+        let v0 = slabs_view(&r, nodes, &chunks);
+        match router_roundtrip(&r, fmt, &scratch, "sl") {
+            Ok((l, _)) => {
+                let v1 = slabs_view(&l, nodes, &chunks);
+                let diff: Vec<&String> = v0.keys().chain(v1.keys()).filter(|k| v0.get(*k) != v1.get(*k)).collect();
+                slabs.push(&format!("{i}"), &format!("slabs#{i} fmt={fmt} view={v0:?}"), v0.len() > 6);
+                if !diff.is_empty() {
+                    let k = diff[0];
+                    let class = if k.starts_with("graph") { "graph-tensor-roundtrip" } else if k.starts_with("rel") { "relational-roundtrip" } else if k.starts_with("blob") { "blob-roundtrip" } else { "index-roundtrip" };
+                    hits.push(class, &format!("slab view {k} differs after a round trip (fmt {fmt}): before {:?} after {:?}", v0.get(k), v1.get(k)), json!({"kind": "slabs", "index": i, "seed": args.seed, "before": v0.get(k), "after": v1.get(k)}));
+                }
+            }
+            Err(e) => hits.push("roundtrip-error", &format!("round trip failed: {e}"), json!({"kind": "slabs", "index": i})),
+        }
+    }
+
+    // ---------------------------------------------------------------- q: quantising format
+    let mut q_inputs: Vec<(bool, Vec<Op>)> = vec![];
+    {
+        let mut t = TensorData::new();
+        t.set("b", TensorValue::Scalar(ScalarValue::Bytes(vec![1, 2, 3])));
+        q_inputs.push((false, vec![Op::Put("k".into(), t)]));                         // F-C07-bytes
+        let mut t = TensorData::new();
+        t.set("ids", TensorValue::Vector(vec![5.0, 3.0, 2.5, -1.0]));
+        q_inputs.push((true, vec![Op::Put("k".into(), t.clone())]));                   // F-C07-ids
+        q_inputs.push((false, vec![Op::Put("k".into(), t)]));
+        let mut t = TensorData::new();
+        t.set("w", TensorValue::Vector(vec![1.0, 1e30]));
+        t.set("sp", TensorValue::Sparse(SparseVector::from_parts(5, vec![1, 3], vec![2.0, -1.0])));
+        q_inputs.push((true, vec![Op::Put("k".into(), t)]));
+    }
+    let nq = args.budget(350, 12000);
+    for _ in 0..nq {
+        let delta = rng.chance(1, 2);
+        let ops = gen_ops(&mut rng, 4, 6, &mut dist);
+        q_inputs.push((delta, ops));
+    }
+    for (i, (delta, ops)) in q_inputs.iter().enumerate() {
+        let s = TensorStore::new();
+        apply_router(s.router(), ops);
+        let before = dump_router(s.router());
+        let p = scratch.join("q.bin");
+        let _ = std::fs::remove_file(&p);
+        let cfg = tensor_compress::CompressionConfig { tensor_mode: None, delta_encoding: *delta, rle_encoding: rng.chance(1, 2) };
+        dist.hit(if *delta { "q.delta_on" } else { "q.delta_off" });
+        let res = s.save_snapshot_compressed(&p, cfg).map_err(|e| e.to_string()).and_then(|_| TensorStore::load_snapshot_compressed(&p).map_err(|e| e.to_string()));
+        match res {
+            Ok(l) => {
+                let after = dump_router(l.router());
+                let term = format!("({}, {}, {}, {})", b(*delta), list(ops.iter().map(|o| o.coq())), dump_coq(&before), dump_coq(&after));
+                let human = format!("q#{i} delta={delta} ops=[{}]", ops.iter().map(|o| o.human()).collect::<Vec<_>>().join("; "));
+                q.push(&term, &human, before.len() >= 1);
+            }
+            Err(e) => hits.push("roundtrip-error", &format!("compressed round trip failed: {e}"), json!({"kind": "q", "index": i, "ops": ops.iter().map(|o| o.human()).collect::<Vec<_>>() })),
+        }
+    }
+
+    // ---------------------------------------------------------------- crash: real mid-save state through the hook
+    let ncrash = args.budget(24, 400);
+    let cap: Arc<Mutex<Option<(PathBuf, Captured)>>> = Arc::new(Mutex::new(None));
+    for i in 0..ncrash + 3 {
+        // corpus: i = 0,1,2 -> path with the temp extension, one per format
+        let tmp_ext = i < 3 || rng.chance(1, 6);
+        let fmt = if i < 3 { [Fmt::FileZstd, Fmt::FileRaw, Fmt::Quant][i] } else { *rng.pick(&[Fmt::FileZstd, Fmt::FileRaw, Fmt::Quant]) };
+        let had_old = i < 3 || rng.chance(4, 5);
+        let dir = scratch.join(format!("crash{i}"));
+        let _ = std::fs::remove_dir_all(&dir);
+        std::fs::create_dir_all(&dir).unwrap();
+        let path = dir.join(if tmp_ext { "snap.tmp" } else { "snap.bin" });
+        let mk = |rng: &mut Rng, dist: &mut Dist| { let s = TensorStore::new(); let ops = gen_ops(rng, 4, 4, dist); apply_router(s.router(), &ops); let mut t = TensorData::new(); t.set("gen", TensorValue::Scalar(ScalarValue::Int(rng.below(1 << 40) as i64))); s.put("marker", t).unwrap(); s };
+        let old_store = mk(&mut rng, &mut dist);
+        let new_store = mk(&mut rng, &mut dist);
+        // "the complete previous / new snapshot" = what loading the complete file yields
+        let ref_path = dir.join("ref.dat");
+        save_store(&old_store, &ref_path, fmt).unwrap();
+        let old_dump = dump_router(load_store(&ref_path, fmt).unwrap().router());
+        save_store(&new_store, &ref_path, fmt).unwrap();
+        let new_dump = dump_router(load_store(&ref_path, fmt).unwrap().router());
+        let _ = std::fs::remove_file(&ref_path);
+        if had_old { save_store(&old_store, &path, fmt).unwrap(); }
+        let old_bytes = if had_old { Some(std::fs::read(&path).unwrap()) } else { None };
+        // capture the directory at the point between the temp write and the rename
+        *cap.lock().unwrap() = None;
+        let cap2 = cap.clone();
+        let dir2 = dir.clone();
+        verif_hook::set(Some(Arc::new(move |name: &str| {
+            if name == "snapshot.before_rename" {
+                let mut files = vec![];
+                for e in std::fs::read_dir(&dir2).unwrap().flatten() {
+                    files.push((e.path(), std::fs::read(e.path()).unwrap_or_default()));
+                }
+                *cap2.lock().unwrap() = Some((dir2.clone(), Captured { files }));
+            }
+        })));
+        let res = save_store(&new_store, &path, fmt);
+        verif_hook::set(None);
+        if let Err(e) = res { hits.push("save-error", &format!("save failed: {e}"), json!({"kind": "crash", "index": i})); continue; }
+        let final_bytes = std::fs::read(&path).unwrap();
+        let leftovers: Vec<PathBuf> = std::fs::read_dir(&dir).unwrap().flatten().map(|e| e.path()).filter(|p| *p != path).collect();
+        // the state the hook saw: which file held the new content, what `path` held
+        let captured = cap.lock().unwrap().take();
+        let (temp_file, at_hook_path): (PathBuf, Option<Vec<u8>>) = match &captured {
+            Some((_, c)) => {
+                dist.hit("crash.hook_fired");
+                let at_path = c.files.iter().find(|(p, _)| *p == path).map(|(_, b)| b.clone());
+                let temp = c.files.iter().find(|(p, b)| *p != path && *b == final_bytes).map(|(p, _)| p.clone());
+                match temp {
+                    Some(t) => (t, at_path),
+                    None => (path.clone(), at_path), // the new content was being written to `path` itself
+                }
+            }
+            None => { dist.hit("crash.hook_missed"); let mut nm = path.as_os_str().to_owned(); nm.push(".tmp"); (PathBuf::from(nm), old_bytes.clone()) }
+        };
+        let writes_in_place = temp_file == path;
+        dist.hit(if writes_in_place { "crash.in_place" } else { "crash.sibling_temp" });
+        if !writes_in_place && at_hook_path != old_bytes {
+            hits.push("path-touched-before-rename", "the target path changed before the rename", json!({"kind": "crash", "index": i}));
+        }
+        // crash states before the rename: temp truncated at every byte
+        let n = final_bytes.len();
+        let sim = dir.join("sim");
+        let mut outs = Vec::with_capacity(n + 1);
+        for k in 0..=n {
+            let _ = std::fs::remove_dir_all(&sim);
+            std::fs::create_dir_all(&sim).unwrap();
+            let sp = sim.join(path.file_name().unwrap());
+            let st = sim.join(temp_file.file_name().unwrap());
+            if let Some(ob) = &old_bytes { std::fs::write(&sp, ob).unwrap(); }
+            std::fs::write(&st, &final_bytes[..k]).unwrap(); // File::create truncates; then a prefix reaches the disk
+            outs.push(outcome(&sp, fmt, if had_old { Some(&old_dump) } else { None }, &new_dump));
+        }
+        let after = outcome(&path, fmt, if had_old { Some(&old_dump) } else { None }, &new_dump);
+        if !leftovers.is_empty() { dist.hit("crash.temp_left_behind"); }
+        dist.add("crash.truncation_points", (n + 1) as u64);
+        let term = format!("({}, {}, {}, {}, {})", b(tmp_ext), b(had_old), n, list(outs.iter().map(|o| format!("{o}"))), after);
+        let human = format!("crash#{i} path={} fmt={} had_old={had_old} new_len={n} temp={} outcomes(0 err,1 old,2 new,3 other,4 panic)={}", path.file_name().unwrap().to_string_lossy(), match fmt { Fmt::FileZstd => "file+zstd", Fmt::FileRaw => "file", Fmt::Quant => "quantising" }, temp_file.file_name().unwrap().to_string_lossy(), outs.iter().map(|o| format!("{o}")).collect::<String>());
+        crash.push(&term, &human, had_old);
+        let _ = std::fs::remove_dir_all(&dir);
+    }
+
+    // ---------------------------------------------------------------- big stores (implementation only)
+    let nbig = args.budget(2, 6);
+    for i in 0..nbig {
+        let entries = if i == 0 { 0 } else { args.budget(6000, 40000) };
+        let s = TensorStore::new();
+        let mut d2 = Dist::default();
+        for j in 0..entries {
+            let p = *rng.pick(&KEY_PREFIX);
+            let t = gen_tdata(&mut rng, 4, false, &mut d2);
+            s.put(format!("{p}{j}"), t).unwrap();
+        }
+        dist.add("big.entries", entries as u64);
+        let fmtn = i % 3;
+        let before = dump_router(s.router());
+        let after = match fmtn {
+            0 => { let p = scratch.join("big.bin"); s.save_snapshot(&p).unwrap(); dump_router(TensorStore::load_snapshot(&p).unwrap().router()) }
+            1 => { let p = scratch.join("big.bin"); snapshot::save_v3_uncompressed(s.router(), &p).unwrap(); dump_router(TensorStore::load_snapshot(&p).unwrap().router()) }
+            _ => { let bs = s.snapshot_bytes().unwrap(); dump_router(SlabRouter::from_bytes(&bs).map(|r| r).as_ref().unwrap()) }
+        };
+        big.push(&format!("{i}"), &format!("big#{i} entries={entries} fmt={fmtn}"), entries > 0);
+        if !dump_bits_eq(&before, &after) {
+            let bad = before.iter().zip(after.iter()).find(|(a, bb)| a.0 != bb.0 || match (&a.1, &bb.1) { (Some(x), Some(y)) => !tdata_bits_eq(x, y), (None, None) => false, _ => true });
+            hits.push("big-roundtrip", &format!("large store differs after round trip (fmt {fmtn}, {entries} entries): first difference {:?}", bad.map(|(a, bb)| (a.0.clone(), a.1.as_ref().map(sorted_fields), bb.1.as_ref().map(sorted_fields)))), json!({"kind": "big", "index": i, "seed": args.seed}));
+        }
+    }
+
+    // ---------------------------------------------------------------- tt: long embeddings against the documented tolerance
+    // TTConfig::for_dim documents `tolerance: 1e-4` (relative, per truncated SVD); the check allows 1e-2.
+    let ntt = args.budget(6, 60);
+    for i in 0..ntt {
+        let s = TensorStore::new();
+        let kind = i % 3;
+        let v: Vec<f32> = match kind {
+            0 => (0..384).map(|j| ((j as f32) * 0.01).sin()).collect(),                       // smooth (low TT rank)
+            1 => (0..384).map(|_| (rng.below(2000) as f32 - 1000.0) / 1000.0).collect(),     // generic
+            _ => (0..384).map(|j| if j % 7 == 0 { (rng.below(2000) as f32 - 1000.0) / 1000.0 } else { 0.0 }).collect(), // sparse
+        };
+        dist.hit(["tt.smooth", "tt.generic", "tt.sparse"][kind]);
+        let mut t = TensorData::new();
+        t.set("_embedding", TensorValue::Vector(v.clone()));
+        s.put("emb:x", t.clone()).unwrap();
+        s.put("plain", t).unwrap();
+        let l = if i % 2 == 0 { let p = scratch.join("tt.bin"); s.save_snapshot(&p).unwrap(); TensorStore::load_snapshot(&p).unwrap() } else { let bs = s.snapshot_bytes().unwrap(); let n = TensorStore::new(); n.restore_from_bytes(&bs).unwrap(); n };
+        let err = |k: &str| -> f64 {
+            match l.get(k).ok().and_then(|g| g.get("_embedding").cloned()) {
+                Some(TensorValue::Vector(w)) if w.len() == v.len() => {
+                    let num: f64 = v.iter().zip(&w).map(|(x, y)| ((*x - *y) as f64).powi(2)).sum::<f64>().sqrt();
+                    let den: f64 = v.iter().map(|x| (*x as f64).powi(2)).sum::<f64>().sqrt();
+                    if den == 0.0 { num } else { num / den }
+                }
+                _ => f64::INFINITY,
+            }
+        };
+        let (e_emb, e_plain) = (err("emb:x"), err("plain"));
+        tt.push(&format!("{i}"), &format!("tt#{i} kind={kind} relerr(emb:x)={e_emb:.5} relerr(plain)={e_plain:.5}"), true);
+        if e_plain != 0.0 {
+            hits.push("plain-vector-changed", &format!("384-dim vector under a plain key changed: relative error {e_plain}"), json!({"kind": "tt", "index": i}));
+        }
+        if !(e_emb <= 1e-2) {
+            hits.push("tt-lossy", &format!("384-dim embedding under emb:x came back with relative error {e_emb:.4} (documented TT tolerance 1e-4, allowed 1e-2); vector kind {}", ["smooth", "generic", "sparse"][kind]), json!({"kind": "tt", "index": i, "seed": args.seed, "relerr": e_emb}));
+        }
+    }
+    // restore_from_bytes into a store drops the relational slab (shared root cause with C08)
+    {
+        let s = TensorStore::new();
+        s.router().relations.create_table("t", TableSchema::new(vec![ColumnDef::new("x", ColumnType::Int, false)])).unwrap();
+        s.router().relations.insert("t", vec![ColumnValue::Int(1)]).unwrap();
+        let bs = s.snapshot_bytes().unwrap();
+        let n = TensorStore::new();
+        n.restore_from_bytes(&bs).unwrap();
+        let rows = n.router().relations.scan_all("t").map(|r| r.len()).unwrap_or(usize::MAX);
+        let via_router = SlabRouter::from_bytes(&bs).unwrap().relations.scan_all("t").map(|r| r.len()).unwrap_or(usize::MAX);
+        dist.hit("bytes.relational_probe");
+        if via_router != 1 {
+            hits.push("relational-roundtrip", "SlabRouter::from_bytes lost a table row", json!({"kind": "bytes-rel"}));
+        }
+        if rows != 1 {
+            hits.push("restore-drops-slabs", "table t with one row, snapshot_bytes, restore_from_bytes into a fresh store: the table is gone (restore_from_bytes re-puts only scan(\"\") keys)", json!({"kind": "bytes-rel", "rows_seen": if rows == usize::MAX { -1 } else { rows as i64 }}));
+        }
+    }
+
+    write_meta(
+        &args.out,
+        json!({
+            "property": "C07", "seed": args.seed, "tier": args.tier,
+            "kinds": [hdr.summary(), rt.summary(), q.summary(), crash.summary(), slabs.summary(), big.summary(), tt.summary()],
+            "distribution": dist.json(),
+            "hits": hits.0,
+            "nontrivial_rule": "rt/q: the store holds at least one key; hdr: entry count > 0; crash: an older snapshot existed at the path; slabs: more than six populated views; big: non-empty; tt: always",
+        }),
+    );
 }
